@@ -47,12 +47,13 @@ Fixpoint runs (l : bytes) : list (N * N) :=
       | [] => [(b, 1)]
       end
   end.
-(* incompressible long strings (hex dump of 64 KiB ...) are observed as length + polynomial hash *)
-Definition hash_mod : N := 18446744073709551557.
-Definition bhash (l : bytes) : N := fold_left (fun h b => (h * 1000003 + b + 1) mod hash_mod) l 7.
+(* incompressible long strings (hex dump of 64 KiB ...) are observed as length + iterated prefix sums
+   (no modular reduction: additions only, cheap in vm_compute) *)
+Definition bhash (l : bytes) : N * N * N :=
+  fold_left (fun h b => let '(h1, h2, h3) := h in let h1 := h1 + b + 1 in let h2 := h2 + h1 in (h1, h2, h3 + h2)) l (0, 0, 0).
 Definition o_bytes (l : bytes) : otree :=
   let r := runs l in
-  if 600 <? N.of_nat (length r) then T [L 4096; L (plen l); L (bhash l)]
+  if 600 <? N.of_nat (length r) then let '(h1, h2, h3) := bhash l in T [L 4096; L (plen l); L h1; L h2; L h3]
   else T (map (fun bn : N * N => if snd bn =? 1 then L (fst bn) else T [L (fst bn); L (snd bn)]) r).
 Definition o_arg (a : arg) : otree := T [L (a_ti a); ob (a_be a); o_bytes (a_raw a)].
 
